@@ -116,7 +116,13 @@ def _adapt_scen_op(rng, tgt, labels, int_labels, positions, amb):
             return {'op': 'adapt', 'tgt': tgt, 'to': {'fset': [amb, sc]}}
         return {'op': 'adapt', 'tgt': tgt, 'to': {'fset': [amb, {'loc': sc}]}}
     if len(labs) == 1 and rng.random() < 0.5:
+        # (a numpy integer SCALAR label is rejected loudly by DecVar.adapt - TypeError - and is therefore not generated:
+        #  the property does not promise that input type; observed, see DESIGN.md 8.2)
         return {'op': 'adapt', 'tgt': tgt, 'to': {'scen': labs[0]}}
+    if int_labels and sorted(labs) == list(range(min(labs), min(labs) + len(labs))) and rng.random() < 0.3:
+        return {'op': 'adapt', 'tgt': tgt, 'to': {'scen': {'range': [min(labs), min(labs) + len(labs)]}}}
+    if all(isinstance(l_, int) for l_ in labs) and rng.random() < 0.2:
+        return {'op': 'adapt', 'tgt': tgt, 'to': {'scen': {'nparr': labs}}}
     return {'op': 'adapt', 'tgt': tgt, 'to': {'scen': labs}}
 
 
@@ -419,7 +425,7 @@ def gen_illegal(rng, cfg):
         return {'kind': 'illegal', 'which': which, 'ops': ops, 'labels': labels}
     vt = 'I' if which == 'affine_int' else 'C'
     if which == 'affine_int':
-        vt = rng.choice(['I', 'B'])
+        vt = rng.choice(['I', 'B', 'CI', 'IC', 'BC', 'IB'])        # per-entry type strings: y has two entries
     ops += [{'op': 'model', 'id': 'm', 'kind': 'dro', 'scens': S if intlab else labels},
             {'op': 'rvar', 'id': 'z', 'm': 'm', 'shape': [n]},
             {'op': 'dvar', 'id': 'y', 'm': 'm', 'shape': [2], 'vtype': vt},
@@ -459,7 +465,11 @@ def gen_illegal(rng, cfg):
         to = rng.choice([zsel('z', [j]), ['v', 'z']])
         ops.append({'op': 'adapt', 'tgt': tgt, 'to': to, 'expect': 'raise'})
     elif which == 'affine_int':
-        tgt = rng.choice([['v', 'y'], ['i', ['v', 'y'], [0, 1]], ['i', ['v', 'y'], 1]])
+        if len(vt) == 2:
+            ipos = [k_ for k_, ch in enumerate(vt) if ch != 'C']
+            tgt = rng.choice([['v', 'y'], ['i', ['v', 'y'], [ipos[0], ipos[0] + 1]], ['i', ['v', 'y'], ipos[0]]])
+        else:
+            tgt = rng.choice([['v', 'y'], ['i', ['v', 'y'], [0, 1]], ['i', ['v', 'y'], 1]])
         ops.append({'op': 'adapt', 'tgt': tgt, 'to': rng.choice([['v', 'z'], zsel('z', [0])]), 'expect': 'raise'})
     elif which == 'foreign_rvar':
         ops += [{'op': 'model', 'id': 'm2', 'kind': 'dro', 'scens': S}, {'op': 'rvar', 'id': 'z2', 'm': 'm2', 'shape': [n]}]
@@ -516,7 +526,7 @@ def gen_case(seed, cfg):
             # a failed solve, then a healthy one: queries must describe the new solution
             from machines.hist import FAULTS_BY_ENGINE
             sv2 = rng.choice(case['pool'])
-            f = dict(rng.choice([f for f in FAULTS_BY_ENGINE[sv2] if f['kind'] == 'status']))
+            f = dict(rng.choice([f for f in FAULTS_BY_ENGINE[sv2] if f['kind'] in ('status', 'raise') and f.get('exc') != 'KeyboardInterrupt']))
             case['solves'] = [{'op': 'solve', 'm': 'm', 'solver': sv2, 'fault': f}] + case['solves']
         if rng.random() < 0.3:
             case['solves'] = case['solves'] + [{'op': 'formulate', 'm': 'm', 'primal': False},
@@ -525,6 +535,13 @@ def gen_case(seed, cfg):
         case['zval'] = zv
         if k == 'combo-ro':
             case['cvx_atoms'] = gen_cvx_atoms(rng, case['d'])
+        if k.startswith('combo') and rng.random() < 0.4:
+            # after the checks: the model grows, then a solve fails; whatever the queries return afterwards must be ONE solution
+            from machines.hist import FAULTS_BY_ENGINE as _FB
+            svp = rng.choice(case['pool'])
+            fp = dict(rng.choice([f for f in _FB[svp] if f['kind'] in ('status', 'raise', 'none_solver') and f.get('exc') != 'KeyboardInterrupt']))
+            case['post'] = {'bump': rng.choice([0.5, 1.0, 2.0]), 'solver': svp, 'fault': fp,
+                            'final_solver': rng.choice(case['pool'])}
     return case
 
 
@@ -664,7 +681,8 @@ def _check_solved(case, it, w, viol, stats, probe, props):
         if sop.get('fault'):
             stats['solves_faulted'][eng] = stats['solves_faulted'].get(eng, 0) + 1
             probe('failed_solve_then_healthy')
-            # C12: results of a failed model cannot be read
+            # C12: results of a failed model cannot be read (this is the first solve of the model: whether the failure
+            # propagated as an exception or was reported as a status, no query may return numbers afterwards)
             stats['checks_c12'] += 1
             for nm in ('m',) + (('y', 't') if case['kind'].startswith('combo') else ('x1',)):
                 try:
@@ -981,7 +999,69 @@ def _check_solved(case, it, w, viol, stats, probe, props):
     except Exception as e:
         viol('C12', 'biaffine-eval-raises', '(y[i] - c@z)(z.assign(v)) raised %r' % (e,), exc=type(e).__name__,
              tags=['biaffine_eval_' + case['kind']])
-        return
+    if case.get('post'):
+        _post_phase(case, it, viol, stats, probe, S, d)
+
+
+def _objective_from_readback(case, it, S, d):
+    trow, _ = _call_rows(it.env['t'], S)
+    wts_ = None
+    for o_ in case['ops']:
+        if o_['op'] == 'obj':
+            e_ = o_['e']
+            while e_[0] in ('neg', 'E'):
+                e_ = e_[1]
+            wts_ = e_[1][1]
+    pr_ = case['p'] if case['kind'] == 'combo-dro' else [1.0]
+    uo = sum(pr_[s] * sum(wts_[i] * float(trow[s][i]) for i in range(d)) for s in range(S))
+    return -uo if case.get('sense_max') else uo
+
+
+def _post_phase(case, it, viol, stats, probe, S, d):
+    """the model grows after a successful solve, then a solve fails.  If the failure is reported as a status, no query
+    may return numbers; if the engine raised, whatever the queries return must still be ONE solution (objective and
+    variables of the same solve); the next healthy solve must bring all queries in line again."""
+    post = case['post']
+    m = it.env['m']
+    old_obj = float(m.get())
+    tnow = np.asarray(_call_rows(it.env['t'], S)[0][0], float)
+    bump = float(np.max(tnow)) + post['bump']
+    for op in ({'op': 'cons', 'id': 'post_c', 'e': ['>=', ['i', ['v', 't'], 0], ['c', bump]]},
+               {'op': 'st', 'm': 'm', 'ids': ['post_c']}):
+        rec = it.step(op)
+        if not rec['ok']:
+            return
+    rec = it.step({'op': 'solve', 'm': 'm', 'solver': post['solver'], 'fault': post['fault']})
+    stats['events'] += 3
+    probe('solve_fails_after_model_grew')
+    stats['checks_c12'] += 1
+    got = {}
+    for nm, f in (('model.get()', lambda: float(m.get())), ('t()', lambda: _objective_from_readback(case, it, S, d)),
+                  ('t.get()', lambda: it.env['t'].get())):
+        try:
+            got[nm] = f()
+        except Exception:
+            pass
+    if rec['ok'] and post['fault']['kind'] == 'status':
+        if got:
+            viol('C12', 'read-after-failed-solve', 'after a failed solve (status fault %s) these queries still return numbers: %s'
+                 % (post['fault'], sorted(got)), tags=['failed_solve'])
+            return
+    elif 'model.get()' in got and 't()' in got:
+        if not close(got['model.get()'], got['t()'], 1e-5):
+            viol('C12', 'inconsistent-after-failed-solve', 'after a solve whose engine raised (%s): model.get() = %.9g but the objective '
+                 'at the values of t() is %.9g (objective before the model grew: %.9g)'
+                 % (post['fault'], got['model.get()'], got['t()'], old_obj), tags=['failed_solve'])
+            return
+    # (queries that raise after an engine exception are fine: the property speaks about successful solves; what must not
+    #  happen is numbers of two different solves being served side by side)
+    rec = it.step({'op': 'solve', 'm': 'm', 'solver': post['final_solver']})
+    if rec['ok'] and rec['out']['sol'] == 'opt':
+        stats['checks_c12'] += 1
+        uo = _objective_from_readback(case, it, S, d)
+        if not close(rec['out']['obj'], uo, 1e-5):
+            viol('C12', 'get-vs-readback', 'after recovery: model.get() = %.9g but the objective at the values of t() is %.9g'
+                 % (rec['out']['obj'], uo))
 
 
 def sample_of(case):
@@ -1001,7 +1081,14 @@ def shrink_candidates(case, viol):
             if isinstance(to, dict):
                 v = to.get('scen', to.get('fset', [None, None])[1])
                 if isinstance(v, dict):
-                    v = v.get('loc', v.get('iloc'))
+                    if 'range' in v:
+                        v = list(range(v['range'][0], v['range'][1]))
+                    elif 'np' in v:
+                        v = v['np']
+                    elif 'nparr' in v:
+                        v = list(v['nparr'])
+                    else:
+                        v = v.get('loc', v.get('iloc'))
                 return set(v) if isinstance(v, list) else {v}
             return None
         last_sc = scen_set(last) if last['op'] == 'adapt' else None
